@@ -14,18 +14,19 @@ import (
 	"go.pennock.tech/tabular/markdown"
 	"go.pennock.tech/tabular/properties/align"
 	"go.pennock.tech/tabular/texttable"
+	"go.pennock.tech/tabular/texttable/decoration"
 )
 
 func c10Siblings(x *X) {
-	depth := x.Pick(5, 6)
-	decNames := []string{"utf8-light", "ascii-simple", "utf8-double"}
+	depth := x.Pick(4, 5)
+	decNames := []string{"utf8-light", "ascii-simple", "c10-deco"}
 	type state struct {
 		rows    int
 		aligned bool
 	}
 	build := func(t tabular.Table, st state) {
 		t.AddHeaders("h1", "h2")
-		t.AddRowItems("a", "bb")
+		t.AddRowItems("a", "b") // narrower than its header: alignment of column 2 is visible from the start
 		t.AddSeparator()
 		t.AddRowItems("ccc")
 		for i := 0; i < st.rows; i++ {
@@ -35,24 +36,29 @@ func c10Siblings(x *X) {
 			t.Column(2).SetProperty(align.PropertyType, align.Right)
 		}
 	}
-	x.Explore("sibling-wrappers", ExploreOpts{ShardDepth: 2, Bound: fmt.Sprintf("one table; two texttable wrappers, two html wrappers, one markdown wrapper around it; all sequences of <=%d operations {A/B.SetDecorationNamed(3 names), A/B.Render, texttable.Render(t), auto.Render(t, 2 styles), htmlA.Caption=, htmlA/B.Render, markdown.Render, table grows, column 2 right-aligned}", depth)}, func(c *Chooser) {
+	x.Explore("sibling-wrappers", ExploreOpts{ShardDepth: 2, Bound: fmt.Sprintf("one table; two texttable wrappers, two html wrappers, one markdown wrapper around it; all sequences of <=%d operations {A/B.SetDecorationNamed(3 names, one of them re-registered on the way), A/B.Render, texttable.Render(t), auto.Render(t, 4 styles), re-register a decoration name with another value, htmlA.Caption=, htmlA/B.Render, markdown.Render, table grows, column 2 aligned / unset}", depth)}, func(c *Chooser) {
 		t := tabular.New()
 		st := state{}
 		build(t, st)
 		ttA, ttB := texttable.Wrap(t), texttable.Wrap(t)
 		htA, htB := thtml.Wrap(t), thtml.Wrap(t)
 		md := markdown.Wrap(t)
-		decA, decB := "", "" // "" = default
+		var decA, decB *decoration.Decoration // nil = default; otherwise the VALUE the name resolved to when it was set
+		regGen := 0
+		reRegister := func() {
+			regGen++
+			decoration.RegisterDecorationName("c10-deco", customFromMask(7|1<<(3+regGen%2)))
+		}
+		reRegister()
+		resolve := func(name string) *decoration.Decoration { d := decoration.Named(name); return &d }
 		capA := ""
 		var ops []string
 		renders := 0
 		fresh := func() tabular.Table { f := tabular.New(); build(f, st); return f }
-		textRef := func(dec string) (string, error) {
+		textRef := func(dec *decoration.Decoration) (string, error) {
 			w := texttable.Wrap(fresh())
-			if dec != "" {
-				if _, err := w.SetDecorationNamed(dec); err != nil {
-					return "", err
-				}
+			if dec != nil {
+				w.SetDecoration(*dec)
 			}
 			return w.Render()
 		}
@@ -70,7 +76,7 @@ func c10Siblings(x *X) {
 			return true
 		}
 		for step := 0; step < depth; step++ {
-			k := c.Choose(19)
+			k := c.Choose(22)
 			if k == 0 {
 				break
 			}
@@ -80,13 +86,26 @@ func c10Siblings(x *X) {
 			p, val, site := Safe(func() {
 				switch {
 				case k >= 1 && k <= 3:
-					decA = decNames[k-1]
-					name = fmt.Sprintf("ttA.SetDecorationNamed(%s)", decA)
-					ttA.SetDecorationNamed(decA)
+					decA = resolve(decNames[k-1])
+					name = fmt.Sprintf("ttA.SetDecorationNamed(%s)", decNames[k-1])
+					ttA.SetDecorationNamed(decNames[k-1])
 				case k >= 4 && k <= 6:
-					decB = decNames[k-4]
-					name = fmt.Sprintf("ttB.SetDecorationNamed(%s)", decB)
-					ttB.SetDecorationNamed(decB)
+					decB = resolve(decNames[k-4])
+					name = fmt.Sprintf("ttB.SetDecorationNamed(%s)", decNames[k-4])
+					ttB.SetDecorationNamed(decNames[k-4])
+				case k == 19:
+					name = "decoration.RegisterDecorationName(c10-deco, the other of two decorations)"
+					reRegister()
+				case k == 20:
+					name = "auto.Render(t, c10-deco)"
+					got, gerr := auto.Render(t, "c10-deco")
+					want, werr := textRef(resolve("c10-deco"))
+					ok = judge(name, got, gerr, want, werr)
+				case k == 21:
+					name = "auto.Render(t, texttable.c10-deco)"
+					got, gerr := auto.Render(t, "texttable.c10-deco")
+					want, werr := textRef(resolve("c10-deco"))
+					ok = judge(name, got, gerr, want, werr)
 				case k == 7:
 					name = "ttA.Render()"
 					got, gerr := ttA.Render()
@@ -100,13 +119,13 @@ func c10Siblings(x *X) {
 				case k == 9:
 					name = "texttable.Render(t)"
 					got, gerr := texttable.Render(t)
-					want, werr := textRef("")
+					want, werr := textRef(nil)
 					ok = judge(name, got, gerr, want, werr)
 				case k == 10 || k == 11:
 					style := []string{"texttable.utf8-light", "utf8-double"}[k-10]
 					name = fmt.Sprintf("auto.Render(t, %q)", style)
 					got, gerr := auto.Render(t, style)
-					want, werr := textRef([]string{"utf8-light", "utf8-double"}[k-10])
+					want, werr := textRef(resolve([]string{"utf8-light", "utf8-double"}[k-10]))
 					ok = judge(name, got, gerr, want, werr)
 				case k == 12:
 					capA = fmt.Sprintf("cap%d", step)
